@@ -60,8 +60,27 @@ func refUnmarshal(b bodySpec, v interface{}) error {
 	return json.Unmarshal([]byte(b.Body), v)
 }
 
-func refUnmarshalFails(b bodySpec) [3]bool {
+func (p *progSpec) refUnmarshalFails(b bodySpec) [3]bool {
+	if p.UmCustom && b.UmErr != 0 {
+		return [3]bool{true, true, true}
+	}
 	return [3]bool{refUnmarshal(b, &okT{}) != nil, refUnmarshal(b, &errT{}) != nil, refUnmarshal(b, &comT{}) != nil}
+}
+
+// every answer a program can serve
+func (p *progSpec) allTouts() []toutSpec {
+	var o []toutSpec
+	for _, a := range p.Attempts {
+		o = append(o, a.T)
+		for _, ms := range [][]mwSpec{a.Cli, a.Req} {
+			for _, x := range ms {
+				if x.Resend != nil {
+					o = append(o, *x.Resend)
+				}
+			}
+		}
+	}
+	return o
 }
 
 func refMessages(p *progSpec) map[string]bool {
@@ -73,15 +92,8 @@ func refMessages(p *progSpec) map[string]bool {
 			}
 		}
 	}
-	for _, a := range p.Attempts {
-		add(a.T.B)
-		for _, ms := range [][]mwSpec{a.Cli, a.Req} {
-			for _, x := range ms {
-				if x.Resend != nil {
-					add(x.Resend.B)
-				}
-			}
-		}
+	for _, t := range p.allTouts() {
+		add(t.B)
 	}
 	return m
 }
@@ -108,6 +120,9 @@ func classify(err error, ref map[string]bool) int {
 	}
 	if strings.Contains(err.Error(), "bad ordered form data") {
 		return eOddForm
+	}
+	if strings.Contains(err.Error(), "retryable request should not have unreplayable Body") {
+		return eUnreplayable
 	}
 	return eUnknown
 }
@@ -158,7 +173,7 @@ func (s *execState) ev(kind string, i int) {
 
 const goodChallenge = `Digest realm="c18", nonce="dcd98b7102dd2f0e8b11d0f600bfb0c093", qop="auth", algorithm=MD5`
 
-func buildHTTPResponse(t toutSpec, hr *http.Request) *http.Response {
+func buildHTTPResponse(t toutSpec, hr *http.Request, viaTransformer bool) *http.Response {
 	h := http.Header{}
 	if t.B.CT != "" {
 		h.Set("Content-Type", t.B.CT)
@@ -173,7 +188,7 @@ func buildHTTPResponse(t toutSpec, hr *http.Request) *http.Response {
 	}
 	var body io.Reader = bytes.NewReader([]byte(t.B.Body))
 	cl := int64(len(t.B.Body))
-	if t.B.ReadErr != 0 {
+	if t.B.ReadErr != 0 && !viaTransformer {
 		body = &failReader{r: body, err: mkErr(t.B.ReadErr)}
 		cl = -1
 	}
@@ -214,7 +229,7 @@ func (s *execState) transport(hr *http.Request) (*http.Response, error) {
 	if t.Fail != 0 {
 		return nil, mkErr(t.Fail)
 	}
-	return buildHTTPResponse(t, hr), nil
+	return buildHTTPResponse(t, hr, s.p.Transformer), nil
 }
 
 func (s *execState) mwFunc(level string, i int) req.ResponseMiddleware {
@@ -314,6 +329,40 @@ func execute(p *progSpec, origin *realOrigin) (o obsT, res *okT, er *errT) {
 		f := checkers[p.Checker]
 		c.SetResultStateCheckFunc(func(resp *req.Response) req.ResultState { return req.ResultState(f(resp.StatusCode)) })
 	}
+	if p.Transformer {
+		fails := map[string]int{}
+		for _, t := range p.allTouts() {
+			if t.B.ReadErr != 0 {
+				fails[t.B.Body] = t.B.ReadErr
+			}
+		}
+		c.SetResponseBodyTransformer(func(raw []byte, rq *req.Request, resp *req.Response) ([]byte, error) {
+			if tag := fails[string(raw)]; tag != 0 {
+				return nil, mkErr(tag)
+			}
+			return raw, nil
+		})
+	}
+	if p.UmCustom {
+		fails := map[string]int{}
+		for _, t := range p.allTouts() {
+			if t.B.UmErr != 0 {
+				fails[t.B.Body] = t.B.UmErr
+			}
+		}
+		c.SetJsonUnmarshal(func(data []byte, v interface{}) error {
+			if tag := fails[string(data)]; tag != 0 {
+				return mkErr(tag)
+			}
+			return json.Unmarshal(data, v)
+		})
+		c.SetXmlUnmarshal(func(data []byte, v interface{}) error {
+			if tag := fails[string(data)]; tag != 0 {
+				return mkErr(tag)
+			}
+			return xml.Unmarshal(data, v)
+		})
+	}
 	if p.OnError {
 		c.OnError(func(client *req.Client, r *req.Request, resp *req.Response, err error) {
 			st.ev("onerror", 0)
@@ -394,6 +443,9 @@ func execute(p *progSpec, origin *realOrigin) (o obsT, res *okT, er *errT) {
 	}
 	if p.OddForm {
 		rq.SetOrderedFormData("a", "1", "b")
+	}
+	if p.Unreplayable {
+		rq.SetBody(strings.NewReader("unreplayable"))
 	}
 	for i := 0; i < nReq; i++ {
 		if p.Attempts[0].Req[i].Digest {
